@@ -126,7 +126,8 @@ def run_case(case, ctx):
         ctx.count(1, key=hkey(tuple(case['seed'])), nontrivial=(on_b and stride_div) or limited,
                   cell=('m%d' % m, 'count_%s' % count, 'sc%d' % subset_chunks, 'ss%d' % (subset_spikes is not None)))
         np.random.seed(1000 * rs + 17)
-        rr = call(sel, count, req, subset_chunks=subset_chunks, subset_spikes=subset_spikes)
+        req_arg = [req, tuple(req), np.array(req, dtype=np.int64)][rs % 3]      # list / tuple / array of cluster ids
+        rr = call(sel, count, req_arg, subset_chunks=subset_chunks, subset_spikes=subset_spikes)
         if not rr.ok:
             ctx.violation('raised', desc, 'selector() raised %r' % rr.exc, feats, tb=rr.tb)
             break
